@@ -84,6 +84,11 @@ def potentials_for(dom, regions, generic_on, scale, rng):
     return CliqueVector(out)
 
 
+def CliqueVectorCopy(dom, snap):
+    from mbi import Factor, CliqueVector
+    return CliqueVector({c: Factor(dom.project(c), a.copy()) for c, a in snap.items()})
+
+
 def validity(mu, regions, total, what, fails):
     for r in regions:
         if r not in mu:
@@ -137,7 +142,11 @@ def run_family(acc, job, fam, present):
                         rng = np.random.RandomState((seedbase + 7 * h + 13 * iters) % 2 ** 31)
                         gen = set(regions) if pclass == 'b' else {r for r in regions if r in maximal}
                         pots = potentials_for(dom, regions, gen, 50.0 if pclass == 'c' else 1.0, rng)
+                        snap = {c: np.array(pots[c].values, copy=True) for c in regions}
                         mu = rg.belief_propagation(pots)
+                        if h == depth:
+                            mu = rg.belief_propagation(pots)   # the same potentials object passed again
+                        mutated = [c for c in regions if not np.array_equal(snap[c], np.asarray(pots[c].values), equal_nan=True)]
                         case = {'oracle': 'region-graph', 'k': k, 'fam': [list(c) for c in fam], 'present': present, 'minimal': minimal, 'total': total,
                                 'pclass': pclass, 'iters': iters, 'calls': h, 'seed': job['seed'], 'tier': job['tier']}
                         acc.case(case, nontrivial=len(maximal) >= 2)
@@ -146,6 +155,9 @@ def run_family(acc, job, fam, present):
                         acc.traces += 1
                         fails = []
                         what = 'RegionGraph(convex=False, minimal=%s, iters=%d) call %d' % (minimal, iters, h)
+                        if mutated:
+                            fails.append(('potentials-mutated', '%s overwrote the potentials it was given (regions %r)' % (what, mutated)))
+                            pots = CliqueVectorCopy(dom, snap)
                         validity(mu, regions, total, what, fails)
                         if rip and iters == 60 and not fails:
                             w = exactness(mu, pots, regions, attrs, sizes, total, what, fails)
@@ -163,7 +175,12 @@ def run_family(acc, job, fam, present):
                 for h in range(1, depth + 1):
                     rng = np.random.RandomState((seedbase + 11 * h + 17 * iters + 3) % 2 ** 31)
                     pots = potentials_for(dom, cliques, set(cliques), scale, rng)
-                    mu = fg.belief_propagation(pots)
+                    snap = {c: np.array(pots[c].values, copy=True) for c in cliques}
+                    seen_cb = []
+                    mu = fg.belief_propagation(pots, callback=(lambda m: seen_cb.append(1)) if h == 2 else None)
+                    if h == depth:
+                        mu = fg.belief_propagation(pots)   # the same potentials object passed again
+                    mutated = [c for c in cliques if not np.array_equal(snap[c], np.asarray(pots[c].values), equal_nan=True)]
                     case = {'oracle': 'factor-graph', 'k': k, 'fam': [list(c) for c in fam], 'present': present, 'total': total, 'scale': scale,
                             'iters': iters, 'calls': h, 'seed': job['seed'], 'tier': job['tier']}
                     acc.case(case, nontrivial=len(cliques) >= 2)
@@ -172,6 +189,9 @@ def run_family(acc, job, fam, present):
                     acc.traces += 1
                     fails = []
                     what = 'FactorGraph(convex=False, iters=%d) call %d' % (iters, h)
+                    if mutated:
+                        fails.append(('potentials-mutated', '%s overwrote the potentials it was given (cliques %r)' % (what, mutated)))
+                        pots = CliqueVectorCopy(dom, snap)
                     validity(mu, cliques, total, what, fails)
                     if forest and not fails:
                         w = exactness(mu, pots, cliques, attrs, sizes, total, what, fails)
